@@ -141,9 +141,19 @@ Statement * ParseStatement::parse()
         case Statement::STMT_IMPORT:
         {
           IMPORTStatement * _s = IMPORTStatement::parse(p, ctx);
+          s = _s; /* released on failure */
           (void) beyond_statement(_s);
           /* perform loading now */
-          _s->loadModule(ctx);
+          try
+          {
+            _s->loadModule(ctx);
+          }
+          catch (RuntimeError& re)
+          {
+            /* the path is evaluated at compile time: an error raised by
+             * the expression rejects the statement */
+            throw ParseError(EXC_PARSE_OTHER_S, re.what(), t);
+          }
           return _s;
         }
 
